@@ -1,7 +1,8 @@
 #!/usr/bin/env python3
 import subprocess,re
 out=subprocess.run(['python3','/verif/tools/mkreport.py'],capture_output=True,text=True).stdout
-t1,t2=out.split("\n\n",1)
+parts=out.split("\n\n")
+t1="\n\n".join(parts[:-1]); t2=parts[-1]
 p='/verif/DESIGN.md'
 s=open(p).read()
 s=re.sub(r"<!-- BEGIN GENERATED TABLES -->.*?<!-- END GENERATED TABLES -->",lambda m:"<!-- BEGIN GENERATED TABLES -->\n"+t1+"\n<!-- END GENERATED TABLES -->",s,flags=re.S)
